@@ -3,6 +3,7 @@
 from __future__ import annotations
 
 import copy
+import json
 import random
 
 from hypothesis import strategies as st
@@ -30,6 +31,7 @@ RULE = (
     "either side, or >= 2 filters."
 )
 RULE += (" " + 'Rule lists also name rules by non-canonical UUID spellings (upper case, braces, urn:uuid:, no dashes).')
+RULE += (" A quarter of the streams starts with an action: global template document carrying a product: it is merged over every following detection rule (expectations use the merged documents) and must leave filters as they are.")
 ASSUMPTIONS = [
     "vf/ref is the specification of rule and filter conditions; atoms independent",
     "the library's random prefix is drawn from random.choices; the case fixes random.seed",
@@ -86,7 +88,8 @@ def _convert(docs, rseed, pipeline_suffix):
     from sigma.processing.pipeline import ProcessingPipeline
 
     random.seed(rseed)
-    coll = SigmaCollection.from_dicts(copy.deepcopy(docs))
+    # independent documents (no dict shared between two documents, as after parsing a YAML stream)
+    coll = SigmaCollection.from_dicts(json.loads(json.dumps(docs)))
     pipeline = None
     if pipeline_suffix:
         pipeline = ProcessingPipeline.from_dict({"transformations": [{"type": "field_name_suffix", "suffix": pipeline_suffix}]})
@@ -125,6 +128,15 @@ def check_case(case: dict) -> Outcome:
     rules, filters, rseed = case["rules"], case["filters"], case["rseed"]
     suffix = case.get("suffix") or ""
     cfg = full_cfg(CFG)
+    stream = rules + filters
+    gp = case.get("global_product")
+    if gp:
+        # a collection-level template (action: global) in front of the stream: its values are merged over
+        # every following detection rule (sigma/collection.py: deep_dict_update(rule, global)); filters and
+        # correlation rules are not merged.  Expectations are computed on the merged rule documents.
+        stream = [{"action": "global", "logsource": {"product": gp}, "level": "high"}] + stream
+        rules = [r if "correlation" in r else dict(r, logsource=dict(r["logsource"], product=gp), level="high") for r in rules]
+        out.label("global-template-document")
     # reference formulas
     try:
         ref_rules = {}
@@ -152,7 +164,7 @@ def check_case(case: dict) -> Outcome:
         out.label("some-rule-not-targeted")
     special = "special-filter-name" if "filter-name-special" in out.labels else "plain-names"
     try:
-        got = _convert(rules + filters, rseed, suffix)
+        got = _convert(stream, rseed, suffix)
         base = _convert(rules, rseed, suffix)
     except (SigmaError, NotImplementedError) as e:
         out.fail(f"C11:conversion-failed:{type(e).__name__}:{special}", f"{type(e).__name__}: {e} for filters {[f['filter'] for f in filters]} rules {[r.get('detection') for r in rules]}"[:900])
@@ -240,8 +252,11 @@ def cases(draw):
         fd["rules"] = draw(st.sampled_from(["any", [], [UUIDS[0]], ["rn0"], ["rn1", UUIDS[2]], "rn0", ["nomatch"], "ANY",
                                             [draw(st.sampled_from(spellings))], draw(st.sampled_from(spellings)), ["rn2", UUIDS[1].upper()]]))
         filters.append({"title": f"flt{j}", "logsource": draw(st.sampled_from(LOGSOURCES)), "filter": fd})
-    return {"rules": rules, "filters": filters, "rseed": draw(st.integers(0, 10 ** 6)),
+    case = {"rules": rules, "filters": filters, "rseed": draw(st.integers(0, 10 ** 6)),
             "suffix": draw(st.sampled_from(["", "", "_m"]))}
+    if draw(st.integers(0, 3)) == 0:
+        case["global_product"] = draw(st.sampled_from(["win", "linux", "other"]))
+    return case
 
 
 def run(ctx) -> None:
